@@ -91,7 +91,7 @@ fn pre_state<T: Q, const N: usize>(pre: Pre, tables: Tables) -> (T, Ghost<N>, Ta
 // ------------------------------------------------------------------------------------
 pub fn push<T: Q, const N: usize>(pre: Pre, tables: Tables, g: Grp) {
     let (mut q, _gh, mut want) = pre_state::<T, N>(pre, tables);
-    let k = sym::below(KEYS);
+    let k = tables.pick_key();
     let pay = sym::u8();
     let p = sym::u8();
     let old = want.get(k);
@@ -113,7 +113,7 @@ pub fn push<T: Q, const N: usize>(pre: Pre, tables: Tables, g: Grp) {
 // ------------------------------------------------------------------------------------
 pub fn change_priority<T: Q, const N: usize>(pre: Pre, tables: Tables, g: Grp) {
     let (mut q, _gh, mut want) = pre_state::<T, N>(pre, tables);
-    let k = sym::below(KEYS);
+    let k = tables.pick_key();
     let p = sym::u8();
     let old = want.get(k);
     let r = q.change_priority(&k, Pr(p));
@@ -134,7 +134,7 @@ pub fn change_priority<T: Q, const N: usize>(pre: Pre, tables: Tables, g: Grp) {
 
 pub fn change_priority_by<T: Q, const N: usize>(pre: Pre, tables: Tables, g: Grp) {
     let (mut q, _gh, mut want) = pre_state::<T, N>(pre, tables);
-    let k = sym::below(KEYS);
+    let k = tables.pick_key();
     let p = sym::u8();
     let old = want.get(k);
     let mut calls = 0u8;
@@ -164,7 +164,7 @@ pub fn change_priority_by<T: Q, const N: usize>(pre: Pre, tables: Tables, g: Grp
 // ------------------------------------------------------------------------------------
 pub fn remove<T: Q, const N: usize>(pre: Pre, tables: Tables, g: Grp) {
     let (mut q, _gh, mut want) = pre_state::<T, N>(pre, tables);
-    let k = sym::below(KEYS);
+    let k = tables.pick_key();
     let old = want.get(k);
     let r = q.remove(&k);
     if g.model {
@@ -256,7 +256,7 @@ pub fn assert_tables_unchanged<T: Q, const N: usize>(q: &T, gh: &Ghost<N>) {
 // ------------------------------------------------------------------------------------
 pub fn push_dir<T: Q, const N: usize>(pre: Pre, tables: Tables, g: Grp, increase: bool) {
     let (mut q, gh, mut want) = pre_state::<T, N>(pre, tables);
-    let k = sym::below(KEYS);
+    let k = tables.pick_key();
     let pay = sym::u8();
     let p = sym::u8();
     let old = want.get(k);
@@ -309,7 +309,7 @@ pub fn push_decrease<T: Q, const N: usize>(pre: Pre, tables: Tables, g: Grp) {
 // ------------------------------------------------------------------------------------
 pub fn change_priority_item<T: Q, const N: usize>(pre: Pre, tables: Tables, g: Grp) {
     let (mut q, _gh, mut want) = pre_state::<T, N>(pre, tables);
-    let k = sym::below(KEYS);
+    let k = tables.pick_key();
     let pay = sym::u8();
     let p = sym::u8();
     let old = want.get(k);
@@ -428,7 +428,7 @@ pub fn peek_lo_mut<T: Q, const N: usize>(pre: Pre, tables: Tables, g: Grp) {
 // ------------------------------------------------------------------------------------
 pub fn get_mut<T: Q, const N: usize>(pre: Pre, tables: Tables, g: Grp) {
     let (mut q, gh, mut want) = pre_state::<T, N>(pre, tables);
-    let k = sym::below(KEYS);
+    let k = tables.pick_key();
     let wpay = sym::u8();
     let old = want.get(k);
     let got = match q.get_mut(&k) {
@@ -532,7 +532,7 @@ pub fn clear<T: Q, const N: usize>(pre: Pre, tables: Tables, g: Grp) {
     assert!(q.peek_hi().is_none(), "EMPTY: peek is None after clear");
     post(&mut q, &want, g);
     // behaves like a fresh queue
-    let k = sym::below(KEYS);
+    let k = tables.pick_key();
     let p = sym::u8();
     let r = q.push(Item::new(k, 0), Pr(p));
     assert!(r.is_none(), "EMPTY: first push after clear inserts");
